@@ -17,6 +17,10 @@ use arbitrary::Unstructured;
 use serde_json::json;
 use std::collections::BTreeMap;
 
+/// Whether the span of an escaped identifier may also start behind its backslash (probe of the
+/// current behaviour: it never does, so the spelling as written - escape included - is demanded).
+const LENIENT_ESCAPED: bool = false;
+
 pub struct C09;
 
 fn file_index(path: &str) -> usize {
@@ -96,8 +100,7 @@ pub fn check_spans(cx: &mut CaseCtx, p: &Program, rendered: &[Rendered], state: 
     }
 
     // (2) tightness
-    // identifiers, tags, values: exactly the token range (an escaped identifier may start at the
-    // backslash or at the first letter)
+    // identifiers, tags, values: exactly the token range (for an escaped identifier: backslash included)
     for (path, (a, b)) in rendered.iter().flat_map(|r| r.ranges.iter()) {
         if path.ends_with("/rtuple") {
             continue;
@@ -110,7 +113,7 @@ pub fn check_spans(cx: &mut CaseCtx, p: &Program, rendered: &[Rendered], state: 
         let start = r.tok_start(*a);
         let end = r.tok_end(*b);
         let escaped = r.toks[*a].text.starts_with('\\');
-        let start_ok = s.start == start || (escaped && s.start == (start.0, start.1 + 1));
+        let start_ok = s.start == start || (LENIENT_ESCAPED && escaped && s.start == (start.0, start.1 + 1));
         check!(
             start_ok && s.end == end,
             format!("span-not-tight/{}", kind_of(path)),
@@ -132,7 +135,7 @@ pub fn check_spans(cx: &mut CaseCtx, p: &Program, rendered: &[Rendered], state: 
         };
         let start = r.tok_start(*a);
         let escaped = r.toks[*a].text.starts_with('\\');
-        let start_ok = s.start == start || (escaped && s.start == (start.0, start.1 + 1));
+        let start_ok = s.start == start || (LENIENT_ESCAPED && escaped && s.start == (start.0, start.1 + 1));
         check!(
             start_ok && s.end == r.tok_end(*b),
             format!("span-not-tight/{}", kind_of(path)),
@@ -177,7 +180,7 @@ pub fn check_spans(cx: &mut CaseCtx, p: &Program, rendered: &[Rendered], state: 
         };
         let start = r.tok_start(e.first);
         let escaped = r.toks[e.first].text.starts_with('\\');
-        let start_ok = s.start == start || (escaped && s.start == (start.0, start.1 + 1));
+        let start_ok = s.start == start || (LENIENT_ESCAPED && escaped && s.start == (start.0, start.1 + 1));
         let prelude = if e.prelude_first.is_some() || rendered[fi].docs.contains_key(path) { "with-prelude" } else { "no-prelude" };
         if !start_ok {
             // where does it start instead?
@@ -791,7 +794,7 @@ impl Check for C09 {
         vec![
             "a '\\r' before the line break counts as part of a doc comment's line".into(),
             "a part of a doc comment (overview, a tag with its identifier / message / links) lies on the rows of its own section, not only somewhere in the comment".into(),
-            "an escaped identifier's span may start at the backslash or at the first letter".into(),
+            "the spelling of an escaped identifier includes its backslash".into(),
             "a type reference's span may or may not include its leading attributes".into(),
             "an element's span may end at the end of any of its tokens at or after its name".into(),
         ]
